@@ -23,7 +23,7 @@ def family():
     """State family, defined once per process so that haiway's specialisation cache is constant."""
     global _FAMILY
     if _FAMILY is None:
-        from haiway import State
+        from haiway import Missing, State
 
         class T0(State):
             v: int = 0
@@ -44,6 +44,11 @@ def family():
             def __bool__(self):
                 return False
 
+        class TM(State):
+            """Constructible without arguments because its attribute accepts MISSING."""
+            opt: int | Missing
+            v: int = 0
+
         class M0(State):
             v: int = 0
 
@@ -51,9 +56,10 @@ def family():
             items: Sequence[int] = ()
 
         _FAMILY = {
-            "types": (T0, T1, T2, G[int], G[str], TF),
-            "names": ("T0", "T1", "T2", "G[int]", "G[str]", "TF(falsy)"),
-            "defaultable": (True, False, True, False, False, True),
+            "types": (T0, T1, T2, G[int], G[str], TF, TM),
+            "names": ("T0", "T1", "T2", "G[int]", "G[str]", "TF(falsy)", "TM(opt: int|Missing)"),
+            "defaultable": (True, False, True, False, False, True, True),
+            "generic": G,
             "metrics": (M0, M1),
         }
     return _FAMILY
@@ -320,13 +326,15 @@ def _cfg_for(pid: str, profile: str) -> dict:
             c.update(cancel_mode="sweep" if profile != "cancel" else "random")
     elif pid == "C03":
         w.update(scope=4, updated=3, spawn=3, pause=1)
-        c.update(probe_each=True, pause_between=True, lookup=True, spawn_via_loop=1, top_scope=True, max_blocks=12,
+        c.update(probe_each=True, pause_between=True, lookup=True, spawn_via_loop=1, top_scope="mostly", max_blocks=12,
                  disposables=2, disp_pause=2, prebuilt=1)
     elif pid == "C06":
         w.update(scope=3, updated=1, spawn=5, pause=2, raise_=1, try_=1)
         c.update(join=True, spawn_fail=1, spawn_gate=(2, 2, 2), top_scope="mostly", p_async=4, disposables=1, disp_pause=2, prebuilt=1)
         if profile in ("sweep", "cancel"):
             c.update(cancel_mode="sweep" if profile == "sweep" else "random")
+        if profile == "disp":
+            c.update(disposables=3, disp_faults=1, p_async=7)
     elif pid == "C07":
         w.update(scope=4, updated=1, spawn=3, pause=3, cancel_self=1, check_cancel=2, try_=2)
         c.update(cancel_rules=True, join=False, spawn_gate=(1, 2, 2), top_scope=True, p_async=4, disposables=1,
@@ -342,7 +350,7 @@ def _cfg_for(pid: str, profile: str) -> dict:
     elif pid == "C09":
         w.update(scope=6, spawn=3, pause=3, updated=1)
         c.update(completion=3, completion_rules=True, spawn_via_loop=2, late_children=1, spawn_gate=(2, 2, 0),
-                 max_blocks=6, top_scope=True, tick=1)
+                 max_blocks=6, top_scope="mostly", tick=1, trace=1, logger=1)
         if profile == "faults":
             # every exit path: body raise, failing children, failing disposables, one external cancel
             w.update(raise_=2, try_=2)
@@ -394,7 +402,7 @@ class Gen:
         out = []
         n = s.weighted((2, 4, 2, 1), "nstates")
         for _ in range(n):
-            ti = s.draw(6, "type")
+            ti = s.draw(7, "type")
             out.append((ti, self.value_for(ti)))
             if allow_many and s.chance(1, 8, "dup-type"):
                 out.append((ti, self.fresh()))
@@ -406,7 +414,7 @@ class Gen:
         out = []
         for _ in range(n):
             ns = s.weighted((2, 3, 1), "dstates")
-            d = {"states": [(s.draw(6, "type"), self.fresh()) for _ in range(ns)],
+            d = {"states": [(s.draw(7, "type"), self.fresh()) for _ in range(ns)],
                  "single": bool(s.draw(2, "single")),
                  "enter_pause": int(s.chance(c["disp_pause"], 4, "epause")),
                  "exit_pause": int(s.chance(c["disp_pause"], 4, "xpause")),
@@ -605,6 +613,10 @@ class Engine:
         obs = []
         in_ctx = bool(actor.stack)
         for ti, T in enumerate(fam["types"]):
+            if ti == 3:
+                T = fam["generic"][int]  # a fresh subscription expression: must name the same specialised type
+            elif ti == 4:
+                T = fam["generic"][str]
             modes = ("plain", "default") if order == 0 else ("default", "plain")
             for mode in modes:
                 dflt = make_state(ti, 900000 + ti) if mode == "default" else None
@@ -803,7 +815,7 @@ class Engine:
         f.parent_scope = parent
         f.root = parent.root if parent is not None else f
         f.logger = self.loggers[spec["logger"]] if spec["logger"] is not None else None
-        f.trace = f"trace-{spec['trace']}-{f.uid}" if spec["trace"] is not None else None
+        f.trace = (("trace-%d-{}", "t%2F-{}", "trace-{}")[spec["trace"] % 3]).format(f.uid) if spec["trace"] is not None else None
         f.callback = spec["completion"]
         self.frames.append(f)
         self.all_frames.append(f)
@@ -1018,14 +1030,18 @@ class Engine:
                              f"actor {child.aid} spawned into it is still pending", body="raised" if left is not None else "returned")
             cancelled_in_exit = (actor.cancel_landed is not None and f.body_end_seq is not None
                                  and actor.cancel_landed > f.body_end_seq)
-            if f.body_exc is not None or cancelled_in_exit:
-                after = max(f.body_end_seq or 0, actor.cancel_landed or 0) if f.body_exc is None else f.body_end_seq
+            entry_failed = not f.body_started and left is not None
+            if f.body_exc is not None or cancelled_in_exit or entry_failed:
+                if entry_failed:
+                    after = f.registered_seq  # tasks spawned while entering (by disposables) must go when the entry fails
+                else:
+                    after = max(f.body_end_seq or 0, actor.cancel_landed or 0) if f.body_exc is None else f.body_end_seq
                 for child in f.tasks:
                     if child.held and child.gate_forced and child.gate_forced_seq > after:
                         sim.fail("awaited-instead-of-cancelled", f"scope #{f.uid} "
-                                 f"{'body failed with ' + describe_exc(f.body_exc) if f.body_exc is not None else 'was cancelled while being left'}"
+                                 f"{'body failed with ' + describe_exc(f.body_exc) if f.body_exc is not None else ('could not be entered' if entry_failed else 'was cancelled while being left')}"
                                  f" but blocked child actor {child.aid} was awaited until its gate had to be forced",
-                                 how="body-failed" if f.body_exc is not None else "cancelled-in-exit")
+                                 how="body-failed" if f.body_exc is not None else ("entry-failed" if entry_failed else "cancelled-in-exit"))
         # ---- C08: exit errors must reach the caller -------------------------------------------------
         cancel_hit = (actor.cancel_landed is not None and f.registered_seq < actor.cancel_landed
                       and (not f.body_started or (f.body_end_seq is not None and actor.cancel_landed > f.body_end_seq)))
@@ -1547,6 +1563,16 @@ class Engine:
             await asyncio.wait([t])
 
         self.victim_choice = sim.source.draw(4, "victim") if cfg["cancel_mode"] else 0
+        if cfg["cancel_rules"]:
+            def check_outside_task():
+                # called by the loop itself (a callback, no current task): nobody was asked to cancel -> must not raise
+                from haiway import ctx
+                try:
+                    ctx.check_cancellation()
+                except BaseException as exc:  # noqa: BLE001
+                    sim.fail_post("check-cancellation-spurious", f"ctx.check_cancellation() raised {exc!r} when called outside any task",
+                                  where="no-task")
+            sim.loop.call_soon(check_outside_task)
         if cfg["tick"]:
             # swarm knob: in half of the runs every external completion advances the virtual clock by one grid step
             sim.tick = sim.source.draw(2, "tick")
@@ -1877,6 +1903,8 @@ class Engine:
         def make_merge(mode):
             # both merge callables come from ONE factory: same code object, different behaviour
             def merge(cur, new):
+                if mode == "skip-m1" and isinstance(new, M1):
+                    return MISSING  # "nothing to merge for this type": the documented way to leave a value alone
                 if cur is MISSING:
                     return new
                 if mode == "first":
@@ -1886,13 +1914,13 @@ class Engine:
                 return M1(items=(*cur.items, *new.items))
             return merge
 
-        m_sum, m_first = make_merge("sum"), make_merge("first")
+        m_sum, m_first, m_skip = make_merge("sum"), make_merge("first"), make_merge("skip-m1")
 
         for f in self.frames:
             m = f.metrics_obj
             if m is None or not single(f):
                 continue
-            for label, fn in (("sum", m_sum), ("first", m_first)):
+            for label, fn in (("sum", m_sum), ("first", m_first), ("skip-m1", m_skip)):
                 want = merged(f, fn)
                 got = {type(x): x for x in m.metrics(merge=fn)}
                 for mi, M in enumerate((M0, M1)):
@@ -1960,8 +1988,8 @@ PROPS = {
                "2..4 actors (ctx.spawn / loop.create_task) each running its own nesting of scopes/updates with a pause between any "
                "two ops; every actor probes after every op against its own shadow stack; non-trivial = at least two actors"),
     "C06": _mk("C06", "fault_enumeration",
-               {"quick": [("plain", 120000), ("cancel", 48000), ("sweep", 3000)],
-                "thorough": [("plain", 2400000), ("cancel", 960000), ("sweep", 60000), ("plain-deep", 480000), ("cancel-deep", 192000), ("sweep-deep", 12000)]},
+               {"quick": [("plain", 100000), ("cancel", 40000), ("sweep", 3000), ("disp", 30000)],
+                "thorough": [("plain", 2000000), ("cancel", 800000), ("sweep", 60000), ("disp", 600000), ("plain-deep", 480000), ("cancel-deep", 192000), ("sweep-deep", 12000), ("disp-deep", 120000)]},
                "programs with up to 4 spawned tasks (nested spawns, failing, plain/held gates), body return/raise/cancel; at the instant "
                "`async with` returns every attributed task must be done; deadlock detector; non-trivial = at least two actors",
                sweeps=("sweep",)),
